@@ -12,6 +12,7 @@ sys.path.insert(0, os.path.join(c.VERIF, "translate"))
 import prec_table  # noqa: E402
 import ident_rules  # noqa: E402
 import c10_peg  # noqa: E402  (grammar layer: translate/pest2coq.py, coq/Peg.v, PEG-* streams)
+import textstream  # noqa: E402  (TEXT-EVAL: coq/TextRun.v, text -> outputs as one model; layout slice)
 
 PID = "C10"
 MANIFEST = {
@@ -962,6 +963,7 @@ def main(argv):
         except c.BrokenTie as e:
             res.tie_broken(e.what, e.detail)
         lap(res, "PEG")
+        textstream.run_text_stream(h, c.Rng(seed + 0x7E87), tier == "quick", res, tag="c10text", part="layout", tree_meta=meta)
     # ---- searches on the implementation alone
     evaluations += small_search(h, res)
     evaluations += triple_search(h, res)
